@@ -292,6 +292,7 @@ func (in *pdfInterp) paintStroke() {
 	total := in.toMM.mul(in.gs.ctm)
 	it := item{role: "stroke", clips: in.gs.clips, paint: p, src: clipStr(in.src.String(), 160) + " {" + par.String() + "}"}
 	it.reg = region{key: in.pathKey() + "|stroke|" + par.key(), pls: mapPolys(strokeOutline(in.sps, par, false), total)}
+	it.widthMM = effectiveWidth(total, par.width)
 	if len(par.dashes) > 0 && hasClosedSubpath(in.sps) {
 		it.alt = &region{key: in.pathKey() + "|stroke-joined|" + par.key(), pls: mapPolys(strokeOutline(in.sps, par, true), total)}
 	}
